@@ -36,7 +36,13 @@ INT_TYPES = {
 }
 
 
-def clang_ast(src_rel, name_filter, repo=None, extra_args=()):
+# the configuration that is verified is the one that is shipped and rebuilt by vf/native.py: OpenMP enabled
+# (src/CMakeLists.txt links OpenMP when found).  clang 14 has no omp.h here: native/omp_stub/omp.h declares the
+# few runtime queries, whose results are arbitrary in the contracts.
+OMP_ARGS = ("-fopenmp", "-I" + os.path.join(os.path.dirname(os.path.dirname(os.path.abspath(__file__))), "native", "omp_stub"))
+
+
+def clang_ast(src_rel, name_filter, repo=None, extra_args=OMP_ARGS):
     repo = repo or REPO
     cmd = [CLANG, "-std=c++17", "-fsyntax-only", "-Xclang", "-ast-dump=json", "-Xclang", f"-ast-dump-filter={name_filter}",
            f"-I{os.path.join(repo, 'src')}", *extra_args, os.path.join(repo, src_rel)]
